@@ -1,11 +1,15 @@
 //go:build verif
 
 // Driver for C04 (a restart at any checkpoint resumes changes without redoing finished work).
-// Runs a change through the real TaskRunner with deterministic handlers, keeps EVERY checkpoint payload handed to the
-// Backend, then for the sampled payloads: state.ReadState + a fresh TaskRunner with the same handlers, run to quiescence,
-// and records final statuses and how often each handler was started after the restart.
-// Graphs are chains with extra edges to earlier tasks, so that the real runner (whose Ensure iterates a map) is
-// deterministic. Prints V.models.Restart.case terms.
+// Runs a change through the real TaskRunner with deterministic handlers whose completion the driver controls (every
+// handler blocks on a gate), so that parallel graphs run under a deterministic schedule: a list of actions
+// E (Ensure passes until nothing more starts or changes) and F id (the handler of task id returns; the driver waits for the
+// runner's bookkeeping of that completion). The policy is: E, then release the running handlers oldest start first, repeat.
+// The driver's Backend keeps EVERY checkpoint payload. For the sampled crash points j (after the first j actions):
+//   restart run : state.ReadState(last payload at j) + fresh TaskRunner, same handlers, same policy to quiescence;
+//   baseline run: a fresh State on which actions 1..j are replayed, then the same policy (so: the run WITHOUT restart in
+//                 which an Ensure pass happens at that moment).
+// Prints V.models.Restart.case terms.
 package state
 
 import (
@@ -24,11 +28,12 @@ import (
 )
 
 type c04In struct {
-	Waits  [][]int `json:"waits"`   // Waits[i] = ids (1-based) task i+1 waits for
-	Fail   []int   `json:"fail"`    // ids whose do handler fails
-	NoUndo []int   `json:"no_undo"` // ids without undo handler
-	Every  int     `json:"every"`   // restart at every Every-th checkpoint (1 = all)
-	Off    int     `json:"off"`     // ... starting at this one
+	Waits  [][]int `json:"waits"`            // Waits[i] = ids (1-based) task i+1 waits for
+	Fail   []int   `json:"fail"`             // ids whose do handler fails
+	NoUndo []int   `json:"no_undo"`          // ids without undo handler
+	Every  int     `json:"every"`            // crash after every Every-th action (1 = all)
+	Off    int     `json:"off"`              // ... starting at this one
+	Points []int   `json:"points,omitempty"` // explicit crash points (number of actions before the crash); overrides Every/Off
 }
 
 type c04Backend struct {
@@ -43,64 +48,98 @@ func (b *c04Backend) Checkpoint(d []byte) error {
 	return nil
 }
 func (b *c04Backend) EnsureBefore(time.Duration) {}
-
-type c04Counts struct {
-	mu   sync.Mutex
-	do   map[string]int
-	undo map[string]int
+func (b *c04Backend) count() int {
+	b.mu.Lock()
+	defer b.mu.Unlock()
+	return len(b.payloads)
 }
 
-func c04Runner(st *State, in c04In, cnt *c04Counts) *TaskRunner {
-	fail := map[string]bool{}
+type c04Action struct {
+	F int `json:"f"` // 0 = E, otherwise F id
+}
+
+type c04World struct {
+	in      c04In
+	n       int
+	st      *State
+	r       *TaskRunner
+	be      *c04Backend
+	mu      sync.Mutex
+	gates   map[int]chan struct{}
+	started chan int
+	running []int
+	do      map[int]int
+	undo    map[int]int
+	acts    []c04Action
+	points  []int // points[k] = index of the last payload after k+1 actions
+}
+
+func c04NewWorld(in c04In, st *State, be *c04Backend) *c04World {
+	w := &c04World{in: in, n: len(in.Waits), st: st, be: be, gates: map[int]chan struct{}{}, started: make(chan int, 64),
+		do: map[int]int{}, undo: map[int]int{}}
+	fail := map[int]bool{}
 	for _, f := range in.Fail {
-		fail[strconv.Itoa(f)] = true
+		fail[f] = true
 	}
-	r := NewTaskRunner(st)
-	do := func(t *Task, _ *tomb.Tomb) error {
-		cnt.mu.Lock()
-		cnt.do[t.ID()]++
-		cnt.mu.Unlock()
-		// a state modification inside the handler: creates a checkpoint while the task is Doing
-		st.Lock()
-		t.Set("touched", true)
-		st.Unlock()
-		if fail[t.ID()] {
-			return errors.New("boom")
+	handler := func(isUndo bool) HandlerFunc {
+		return func(t *Task, _ *tomb.Tomb) error {
+			id, _ := strconv.Atoi(t.ID())
+			ch := make(chan struct{})
+			w.mu.Lock()
+			if isUndo {
+				w.undo[id]++
+			} else {
+				w.do[id]++
+			}
+			w.gates[id] = ch
+			w.mu.Unlock()
+			// a state modification inside the handler: a checkpoint while the task is Doing/Undoing
+			st.Lock()
+			t.Set("touched", true)
+			st.Unlock()
+			w.started <- id
+			<-ch
+			if !isUndo && fail[id] {
+				return errors.New("boom")
+			}
+			return nil
 		}
-		return nil
 	}
-	undo := func(t *Task, _ *tomb.Tomb) error {
-		cnt.mu.Lock()
-		cnt.undo[t.ID()]++
-		cnt.mu.Unlock()
-		st.Lock()
-		t.Set("untouched", true)
-		st.Unlock()
-		return nil
-	}
-	r.AddHandler("u", do, undo)
-	r.AddHandler("n", do, nil)
-	return r
+	w.r = NewTaskRunner(st)
+	w.r.AddHandler("u", handler(false), handler(true))
+	w.r.AddHandler("n", handler(false), nil)
+	return w
 }
 
-// run to quiescence: Ensure, wait for every handler, until the change is ready or nothing moves any more
-func c04Settle(st *State, r *TaskRunner, n int) {
-	last := ""
-	for i := 0; i < 6*n+10; i++ {
-		r.Ensure()
-		r.Wait()
-		st.Lock()
-		cur := fmt.Sprint(c04Statuses(st))
-		st.Unlock()
-		if cur == last {
-			break
-		}
-		last = cur
+func c04Build(in c04In) (*State, *c04Backend) {
+	noUndo := map[int]bool{}
+	for _, x := range in.NoUndo {
+		noUndo[x] = true
 	}
-	r.Stop()
+	be := &c04Backend{}
+	st := New(be)
+	st.Lock()
+	chg := st.NewChange("c", "s")
+	var ts []*Task
+	for i := range in.Waits {
+		kind := "u"
+		if noUndo[i+1] {
+			kind = "n"
+		}
+		t := st.NewTask(kind, "s")
+		for _, w := range in.Waits[i] {
+			t.WaitFor(ts[w-1])
+		}
+		chg.AddTask(t)
+		ts = append(ts, t)
+	}
+	st.Unlock()
+	return st, be
 }
 
 func c04Statuses(st *State) [][2]int {
+	st.Lock()
+	defer st.unlock() // plain unlock: reading must not produce a checkpoint
 	var out [][2]int
 	for id, t := range st.tasks {
 		n, _ := strconv.Atoi(id)
@@ -108,6 +147,79 @@ func c04Statuses(st *State) [][2]int {
 	}
 	sort.Slice(out, func(i, j int) bool { return out[i][0] < out[j][0] })
 	return out
+}
+
+// E: Ensure passes until nothing more starts and no status changes; every started handler is waited for until it has
+// announced itself (it then blocks on its gate)
+func (w *c04World) ensureFix() {
+	for i := 0; i < 2*w.n+3; i++ {
+		before := fmt.Sprint(c04Statuses(w.st))
+		w.r.Ensure()
+		w.r.mu.Lock()
+		want := len(w.r.tombs)
+		w.r.mu.Unlock()
+		var fresh []int
+		for len(w.running)+len(fresh) < want {
+			select {
+			case id := <-w.started:
+				fresh = append(fresh, id)
+			case <-time.After(20 * time.Second):
+				panic("c04: a started handler did not announce itself")
+			}
+		}
+		sort.Ints(fresh)
+		w.running = append(w.running, fresh...)
+		if len(fresh) == 0 && fmt.Sprint(c04Statuses(w.st)) == before {
+			break
+		}
+	}
+}
+
+// F id: the handler returns; wait until the runner goroutine has recorded the outcome
+func (w *c04World) finish(id int) {
+	w.r.mu.Lock()
+	tb := w.r.tombs[strconv.Itoa(id)]
+	w.r.mu.Unlock()
+	w.mu.Lock()
+	ch := w.gates[id]
+	delete(w.gates, id)
+	w.mu.Unlock()
+	if tb == nil || ch == nil {
+		panic(fmt.Sprintf("c04: task %d is not running", id))
+	}
+	close(ch)
+	tb.Wait()
+	for i, x := range w.running {
+		if x == id {
+			w.running = append(w.running[:i:i], w.running[i+1:]...)
+			break
+		}
+	}
+}
+
+func (w *c04World) act(a c04Action) {
+	if a.F == 0 {
+		w.ensureFix()
+	} else {
+		w.finish(a.F)
+	}
+	w.acts = append(w.acts, a)
+	w.points = append(w.points, w.be.count()-1)
+}
+
+// the policy: E, then every running handler returns, oldest start first; until nothing moves
+func (w *c04World) settle() {
+	for round := 0; round < 6*w.n+10; round++ {
+		before := fmt.Sprint(c04Statuses(w.st))
+		w.act(c04Action{})
+		if len(w.running) == 0 && fmt.Sprint(c04Statuses(w.st)) == before {
+			break
+		}
+		for len(w.running) > 0 {
+			w.act(c04Action{F: w.running[0]})
+		}
+	}
+	w.r.Stop()
 }
 
 func c04Pairs(l [][2]int) string {
@@ -124,79 +236,112 @@ func c04NL(l []int) string {
 	}
 	return vh.CoqList(it)
 }
-func c04CountPairs(n int, m map[string]int) [][2]int {
+func c04CountPairs(n int, m map[int]int) [][2]int {
 	var out [][2]int
 	for i := 1; i <= n; i++ {
-		out = append(out, [2]int{i, m[strconv.Itoa(i)]})
+		out = append(out, [2]int{i, m[i]})
 	}
 	return out
 }
 
 type c04Restart struct {
-	Checkpoint int      `json:"checkpoint"`
-	Payload    [][2]int `json:"payload"`
-	Final      [][2]int `json:"final"`
-	Dos        [][2]int `json:"dos"`
-	Undos      [][2]int `json:"undos"`
+	J        int      `json:"j"`
+	Payload  [][2]int `json:"payload"`
+	FinalR   [][2]int `json:"final_restart"`
+	FinalB   [][2]int `json:"final_baseline"`
+	Dos      [][2]int `json:"dos"`
+	Undos    [][2]int `json:"undos"`
+	Diff     []int    `json:"diff,omitempty"`     // ids whose final status differs between restart and baseline run
+	InAbort  []int    `json:"in_abort,omitempty"` // ids persisted in Abort at the crash point
+	Class    string   `json:"class"`              // same | abort-only | other  (used by classify only)
+}
+
+func c04Lookup(l [][2]int, id int) int {
+	for _, p := range l {
+		if p[0] == id {
+			return p[1]
+		}
+	}
+	return 0
 }
 
 func c04Exec(in c04In) vh.Out {
 	n := len(in.Waits)
-	noUndo := map[int]bool{}
-	for _, x := range in.NoUndo {
-		noUndo[x] = true
-	}
-	be := &c04Backend{}
-	st := New(be)
-	st.Lock()
-	chg := st.NewChange("c", "s")
-	var ts []*Task
-	for i := 0; i < n; i++ {
-		kind := "u"
-		if noUndo[i+1] {
-			kind = "n"
-		}
-		t := st.NewTask(kind, "s")
-		for _, w := range in.Waits[i] {
-			t.WaitFor(ts[w-1])
-		}
-		chg.AddTask(t)
-		ts = append(ts, t)
-	}
-	st.Unlock()
-	cnt := &c04Counts{do: map[string]int{}, undo: map[string]int{}}
-	c04Settle(st, c04Runner(st, in, cnt), n)
-	st.Lock()
+	st, be := c04Build(in)
+	w := c04NewWorld(in, st, be)
+	w.settle()
 	final := c04Statuses(st)
-	st.Unlock()
 
-	every := in.Every
-	if every < 1 {
-		every = 1
+	var crash []int
+	if in.Points != nil {
+		crash = in.Points
+	} else {
+		every := in.Every
+		if every < 1 {
+			every = 1
+		}
+		for j := 1; j <= len(w.acts); j++ {
+			if (j+in.Off)%every == 0 || j == len(w.acts) {
+				crash = append(crash, j)
+			}
+		}
 	}
 	var rs []c04Restart
 	var items []string
 	tags := map[string]bool{}
-	for k := 0; k < len(be.payloads); k++ {
-		if (k+in.Off)%every != 0 && k != len(be.payloads)-1 {
+	for _, j := range crash {
+		if j < 1 || j > len(w.acts) {
 			continue
 		}
+		// restart run
 		be2 := &c04Backend{}
-		st2, err := ReadState(be2, bytes.NewReader(be.payloads[k]))
+		st2, err := ReadState(be2, bytes.NewReader(be.payloads[w.points[j-1]]))
 		if err != nil {
 			panic(err)
 		}
-		st2.Lock()
 		payload := c04Statuses(st2)
-		st2.Unlock()
-		cnt2 := &c04Counts{do: map[string]int{}, undo: map[string]int{}}
-		c04Settle(st2, c04Runner(st2, in, cnt2), n)
-		st2.Lock()
-		fin := c04Statuses(st2)
-		st2.Unlock()
-		r := c04Restart{Checkpoint: k, Payload: payload, Final: fin, Dos: c04CountPairs(n, cnt2.do), Undos: c04CountPairs(n, cnt2.undo)}
+		w2 := c04NewWorld(in, st2, be2)
+		w2.settle()
+		finR := c04Statuses(st2)
+		// baseline run: the same history without the restart
+		st3, be3 := c04Build(in)
+		w3 := c04NewWorld(in, st3, be3)
+		for _, a := range w.acts[:j] {
+			w3.act(a)
+		}
+		w3.settle()
+		finB := c04Statuses(st3)
+
+		r := c04Restart{J: j, Payload: payload, FinalR: finR, FinalB: finB, Dos: c04CountPairs(n, w2.do), Undos: c04CountPairs(n, w2.undo)}
+		other := len(payload) != n
+		for id := 1; id <= n; id++ {
+			ps := c04Lookup(payload, id)
+			if ps == 5 {
+				r.InAbort = append(r.InAbort, id)
+			}
+			doFinished := !(ps == 2 || ps == 3 || ps == 0)
+			undoFinished := ps == 8 || ps == 1 || ps == 9
+			if (doFinished && w2.do[id] != 0) || (undoFinished && w2.undo[id] != 0) || (ps == 3 && w2.do[id] < 1) || (ps == 7 && w2.undo[id] < 1) {
+				other = true
+			}
+			if c04Lookup(finR, id) != c04Lookup(finB, id) {
+				r.Diff = append(r.Diff, id)
+				if ps != 5 {
+					other = true
+				}
+			}
+		}
+		switch {
+		case other:
+			r.Class = "other"
+		case len(r.Diff) > 0:
+			r.Class = "abort-only"
+			tags["outcome-differs-for-task-in-abort"] = true
+		default:
+			r.Class = "same"
+		}
 		rs = append(rs, r)
-		items = append(items, "(RObs "+c04Pairs(r.Payload)+" "+c04Pairs(r.Final)+" "+c04Pairs(r.Dos)+" "+c04Pairs(r.Undos)+")")
+		items = append(items, "(RObs "+vh.CoqNat(j)+" "+c04Pairs(r.Payload)+" "+c04Pairs(r.FinalR)+" "+c04Pairs(r.FinalB)+" "+c04Pairs(r.Dos)+" "+c04Pairs(r.Undos)+")")
 		for _, p := range payload {
 			switch p[1] {
 			case 3:
@@ -205,19 +350,46 @@ func c04Exec(in c04In) vh.Out {
 				tags["restart-while-undoing"] = true
 			case 6:
 				tags["restart-with-undo-pending"] = true
+			case 5:
+				tags["restart-with-task-in-abort"] = true
 			}
 		}
 	}
-	var graph []string
+	var graph, acts []string
+	chain := true
 	for i := 0; i < n; i++ {
 		graph = append(graph, "("+vh.CoqN(uint64(i+1))+", "+c04NL(in.Waits[i])+")")
+		if i > 0 {
+			has := false
+			for _, x := range in.Waits[i] {
+				if x == i {
+					has = true
+				}
+			}
+			if !has {
+				chain = false
+			}
+		}
 	}
-	coq := "(Case " + vh.CoqList(graph) + " (mkCfg " + c04NL(in.Fail) + " " + c04NL(in.NoUndo) + ") " + c04Pairs(final) + " " + vh.CoqList(items) + ")"
+	for _, a := range w.acts {
+		if a.F == 0 {
+			acts = append(acts, "AE")
+		} else {
+			acts = append(acts, "(AF "+vh.CoqN(uint64(a.F))+")")
+		}
+	}
+	coq := "(Case " + vh.CoqList(graph) + " (mkCfg " + c04NL(in.Fail) + " " + c04NL(in.NoUndo) + ") " + vh.CoqList(acts) + " " +
+		c04Pairs(final) + " " + vh.CoqList(items) + ")"
 	if len(in.Fail) > 0 {
 		tags["failure"] = true
 	}
 	if len(in.NoUndo) > 0 {
 		tags["no-undo-handler"] = true
+	}
+	if chain {
+		tags["chain"] = true
+	} else {
+		tags["parallel"] = true
 	}
 	tags["tasks="+strconv.Itoa(n)] = true
 	var tl []string
@@ -225,8 +397,7 @@ func c04Exec(in c04In) vh.Out {
 		tl = append(tl, t)
 	}
 	sort.Strings(tl)
-	obs := map[string]interface{}{"final": final, "checkpoints": len(be.payloads), "restarts": rs,
-		"do_counts": c04CountPairs(n, cnt.do), "undo_counts": c04CountPairs(n, cnt.undo)}
+	obs := map[string]interface{}{"final": final, "checkpoints": be.count(), "actions": w.acts, "restarts": rs}
 	return vh.Out{Observed: obs, Coq: coq, NonTrivial: tags["restart-while-doing"] || tags["restart-while-undoing"], Tags: tl}
 }
 
@@ -234,20 +405,31 @@ func c04Gen(r *vh.Rand, tier string, n int) []c04In {
 	if n == 0 {
 		n = 40
 	}
-	every := 2
-	if tier == "thorough" {
-		every = 1
-	}
-	var ins []c04In
+	every := 1 // every action boundary is a crash point (the runs are cheap); the field stays for replays
+	// the recorded class (KNOWN_FINDINGS restart-with-task-in-abort): two parallel failing tasks, crash after the first
+	// has failed and aborted the second one, whose handler is still running
+	ins := []c04In{{Waits: [][]int{{}, {}}, Fail: []int{1, 2}, NoUndo: []int{}, Points: []int{2}}}
 	for i := 0; i < n; i++ {
+		chain := i%2 == 0
 		nt := r.Range(1, 5)
+		if !chain {
+			nt = r.Range(2, 4)
+		}
 		in := c04In{Every: every, Off: i % every}
 		for j := 1; j <= nt; j++ {
-			var w []int
-			if j > 1 {
-				w = append(w, j-1) // the chain
-				for k := 1; k < j-1; k++ {
-					if r.Chance(1, 3) {
+			w := []int{}
+			if chain {
+				if j > 1 {
+					w = append(w, j-1)
+					for k := 1; k < j-1; k++ {
+						if r.Chance(1, 3) {
+							w = append(w, k)
+						}
+					}
+				}
+			} else {
+				for k := 1; k < j; k++ {
+					if r.Chance(2, 5) {
 						w = append(w, k)
 					}
 				}
@@ -259,7 +441,7 @@ func c04Gen(r *vh.Rand, tier string, n int) []c04In {
 		}
 		if r.Chance(2, 3) {
 			in.Fail = append(in.Fail, r.Range(1, nt))
-			if r.Chance(1, 5) {
+			if r.Chance(1, 4) {
 				in.Fail = append(in.Fail, r.Range(1, nt))
 			}
 		}
